@@ -601,7 +601,6 @@ func slowClient(s sink.Sink, rng *rand.Rand) {
 		}
 	}
 	var got []string
-	deadline := time.After(40 * time.Second)
 	done := -1
 collect:
 	for len(got) < len(want) {
@@ -624,11 +623,9 @@ collect:
 				s.Inconclusive("watchdog: the watcher stopped taking events although the client was reading")
 				return
 			}
-		case <-deadline:
-			break collect
-		case <-time.After(3 * time.Second):
+		case <-time.After(15 * time.Second):
 			if done == len(evs) {
-				break collect // everything was handed over and nothing more arrives
+				break collect // everything was handed over long ago and nothing more arrives
 			}
 		}
 	}
